@@ -87,6 +87,10 @@ def vec_repeat(x, raw, env, e):
     elem, cnt = raw[:idx].strip(), raw[idx + 1:].strip()
     cnt_v = x.eval_src(cnt, env)
     el = elem.replace(' ', '')
+    hint = (x.type_hint or '').replace(' ', '')
+    if el == '0' and hint in ('Vec<usize>', 'Vec<u64>'):
+        n = x.concrete_index(cnt_v, 1 << 20)
+        return VVec([BV(bv64(0), 64) for _ in range(n)])
     if el in ('0u8', '0'):
         c = x.tobv(cnt_v)
         s = z3.simplify(c.t)
